@@ -48,6 +48,10 @@ CLAIMS["C12"] = ("symbolic evaluation incl. the Python-level step loop (path mer
     "Decides: host rows (stream<0) get the step with step.ts <= ts < step.ts+step.dur read from array positions 0/1/3 that agree with the step frame's column order, default -1; device rows (stream>0) inherit the host-assigned value of row index_correlation iff index_correlation > 0 else -1, after the host store; per-rank trim keeps host-side rows with ts < max(step ts) or (include_last) ts <= max(step end) and device-side rows inner-joined on the kept host rows' correlation; no trim when the table has fewer than two step names; align precedes trim, include_last is forwarded, and end = ts + dur holds after the time shift (typestate).",
     "3/C12")
 
+CLAIMS["C01"] = ("symbolic evaluation of the JSON back end on all 96 paths (row-set predicate, id column, encodings as terms); rounding template; two-rank shift term; end = ts + dur typestate; YAML spec data check; AST agreement rules",
+    "Decides on every path of the JSON back end: returned rows = notnull(dur) & notnull(cat) minus cat == 'Trace' and nothing else; id column = position in the event list; ts=ceil(ts), end=floor(un-rounded ts+dur), dur=end-ts with no further adjustment; cat/name encoded through the id map of the returned local table, which was fed both columns' symbols; stream = int(stream) else -1; stream/correlation arg specs name==raw_name, default -1; one shift = min over all ranks of the per-rank min ts, stored in min_ts, subtracted from every rank and added back by the only un-shifting consumer; end = ts + dur at the exits of parse-only and full load; load_traces indexes by the id column with drop=False after align/trim. pandas' JSON decoding and the ijson back ends are not decided.",
+    "3/C01")
+
 REASON_WIP = "checker under construction in this session (see DESIGN.md section 3); not claimed until its check is committed"
 
 
